@@ -5,7 +5,7 @@ import ast
 from typing import Callable, Dict, Optional, Set
 
 from .flow import ANY_EXC, CANCEL
-from .model import FuncInfo, Project, call_name
+from .model import AnalysisError, FuncInfo, Project, call_name, walk_local
 from .paths import PState, PathAnalysis, calls_in_order, is_benign_call, is_list_total, is_mapping_get, is_mapping_get_here, is_sequence_op, list_names, mapping_names, run_paths
 
 _CONTAINED: Dict[str, bool] = {}
@@ -50,6 +50,36 @@ def class_mapping_attrs(P: Project, cls) -> set:
     return {a for a, vs in stores.items() if vs and all(isinstance(v, ast.Dict) or (isinstance(v, ast.Call) and isinstance(v.func, ast.Name) and v.func.id == "dict" and not v.args) for v in vs)}
 
 
+def injectable_callables(P: Project, ci) -> Set[str]:
+    """Attributes of the class that hold None unless a constructor parameter (itself None by default) gave a value, and that
+    no other method stores: optional collaborators (a clock, a metrics hook) the library itself never sets."""
+    out: Set[str] = set()
+    meths = P.methods(ci)
+    init = meths.get("__init__")
+    class_none = set()
+    for s_ in ci.node.body:
+        tg = s_.targets[0] if isinstance(s_, ast.Assign) and len(s_.targets) == 1 else (s_.target if isinstance(s_, ast.AnnAssign) else None)
+        v = getattr(s_, "value", None)
+        if isinstance(tg, ast.Name) and isinstance(v, ast.Constant) and v.value is None:
+            class_none.add(tg.id)
+    opt = set()
+    if init is not None:
+        a = init.node.args
+        opt = {x.arg for x, d in zip((a.posonlyargs + a.args)[::-1], a.defaults[::-1]) if isinstance(d, ast.Constant) and d.value is None} | {x.arg for x, d in zip(a.kwonlyargs, a.kw_defaults) if isinstance(d, ast.Constant) and d.value is None}
+    stores = {}
+    for m in meths.values():
+        for x in walk_local(m.node):
+            tgs = x.targets if isinstance(x, ast.Assign) else ([x.target] if isinstance(x, (ast.AnnAssign, ast.AugAssign)) else [])
+            for t in tgs:
+                if isinstance(t, ast.Attribute) and isinstance(t.value, ast.Name) and t.value.id == "self":
+                    stores.setdefault(t.attr, []).append((m, getattr(x, "value", None)))
+    for attr in class_none | set(stores):
+        ss = stores.get(attr, [])
+        if all(m is init and isinstance(v, ast.Name) and v.id in opt and not any(isinstance(y, ast.Name) and y.id == v.id and isinstance(y.ctx, ast.Store) for y in walk_local(init.node)) for m, v in ss) and (attr in class_none or ss):
+            out.add(attr)
+    return out
+
+
 def contained(P: Project, f: FuncInfo, depth: int = 0) -> bool:
     """True iff no Exception can leave `f` under the model 'every call/await may
     raise except logging-like calls and calls of functions that are themselves
@@ -71,11 +101,27 @@ def contained(P: Project, f: FuncInfo, depth: int = 0) -> bool:
         return (isinstance(fn_, ast.Attribute) and fn_.attr == "get" and isinstance(fn_.value, ast.Attribute) and isinstance(fn_.value.value, ast.Name) and fn_.value.value.id == "self"
                 and fn_.value.attr in self_maps and 1 <= len(c.args) <= 2 and not c.keywords and all(isinstance(a, (ast.Constant, ast.Name)) for a in c.args))
 
+    hooks = injectable_callables(P, f.cls) if f.cls is not None else set()
+
+    def is_unset_hook(c) -> bool:
+        """`self._clock()` / `clock = self._clock; … clock()` for an attribute that holds None unless the embedding program
+        handed a callable to the constructor: with the library's own defaults the call is never reached, and what a supplied
+        collaborator does is its supplier's business (same reading as `attr_class` for injected objects)"""
+        fn_ = c.func
+        if isinstance(fn_, ast.Attribute) and isinstance(fn_.value, ast.Name) and fn_.value.id == "self" and fn_.attr in hooks:
+            return True
+        if isinstance(fn_, ast.Name):
+            defs = [x.value for x in walk_local(f.node) if isinstance(x, ast.Assign) and len(x.targets) == 1 and isinstance(x.targets[0], ast.Name) and x.targets[0].id == fn_.id]
+            return bool(defs) and all(isinstance(d, ast.Attribute) and isinstance(d.value, ast.Name) and d.value.id == "self" and d.attr in hooks for d in defs)
+        return False
+
     def pred(node, st: PState, an: PathAnalysis):
         hv = tuple(h.name for h in an.handler_stack if h.name)
         truthy = {n_ for n_ in lists if (st.term(n_) or n_) in st.lits or n_ in st.lits} if lists else ()
         for c in calls_in_order(node):
             if is_benign_call(c, hv) or is_mapping_get(c, maps) or is_self_mapping_get(c) or (lists and is_list_total(c, lists, truthy)) or is_sequence_op(c, st) or is_mapping_get_here(c, st) or plain_record_construction(P, f, c):
+                continue
+            if hooks and is_unset_hook(c):
                 continue
             if depth < 3:
                 g = P.resolve_call(f, c)
@@ -163,11 +209,65 @@ def fallible_except_contained(P: Project, f: FuncInfo, extra_total: Optional[Cal
                 continue
             if extra_total is not None and extra_total(c):
                 continue
+            if _module_table_get(c):
+                continue
+            if isinstance(c.func, ast.Name) and c.func.id == "getattr" and len(c.args) == 2 and isinstance(c.args[0], ast.Name) and c.args[0].id == "self" and f.cls is not None:
+                fake = ast.Call(func=c, args=[], keywords=[])
+                ast.copy_location(fake, c)
+                if _by_name_targets(fake) is not None:
+                    continue  # every name it can be given is a method of the class: the look-up itself cannot fail
             g = P.resolve_call(f, c)
             if isinstance(g, FuncInfo) and g is not f and contained(P, g):
                 continue
+            dyn = _by_name_targets(c)
+            if dyn is not None:
+                if all(contained(P, g_) for g_ in dyn):
+                    continue
+                return {ANY_EXC}
             return {ANY_EXC}
         return set()
+
+    def _module_table(name: str):
+        v = P.module_assign(f.module, name)
+        local = any(isinstance(x, ast.Name) and x.id == name and isinstance(x.ctx, ast.Store) for x in walk_local(f.node))
+        return v if isinstance(v, ast.Dict) and not local and all(isinstance(k, ast.Constant) for k in v.keys) else None
+
+    def _module_table_get(c: ast.Call) -> bool:
+        """`TABLE.get(key[, default])` on a module-level dict display with constant keys: total for a hashable key"""
+        fn_ = c.func
+        return (isinstance(fn_, ast.Attribute) and fn_.attr == "get" and isinstance(fn_.value, ast.Name) and _module_table(fn_.value.id) is not None
+                and 1 <= len(c.args) <= 2 and not c.keywords and all(isinstance(a, (ast.Constant, ast.Name)) for a in c.args))
+
+    def _by_name_targets(c: ast.Call):
+        """`getattr(self, name)(…)` with `name` read from a module-level table of method names: the methods it can be
+        (None when the call is not of that form; an unresolvable name is an analysis error, not a finding)"""
+        fn_ = c.func
+        if not (isinstance(fn_, ast.Call) and isinstance(fn_.func, ast.Name) and fn_.func.id == "getattr" and len(fn_.args) == 2 and isinstance(fn_.args[0], ast.Name) and fn_.args[0].id == "self" and f.cls is not None):
+            return None
+        nm = fn_.args[1]
+        names = None
+        if isinstance(nm, ast.Constant) and isinstance(nm.value, str):
+            names = [nm.value]
+        elif isinstance(nm, ast.Name):
+            defs = [x.value for x in walk_local(f.node) if isinstance(x, ast.Assign) and len(x.targets) == 1 and isinstance(x.targets[0], ast.Name) and x.targets[0].id == nm.id]
+            if len(defs) == 1:
+                d = defs[0]
+                tbl = None
+                if isinstance(d, ast.Call) and isinstance(d.func, ast.Attribute) and d.func.attr == "get" and isinstance(d.func.value, ast.Name):
+                    tbl = _module_table(d.func.value.id)
+                elif isinstance(d, ast.Subscript) and isinstance(d.value, ast.Name):
+                    tbl = _module_table(d.value.id)
+                if tbl is not None and all(isinstance(v, ast.Constant) and isinstance(v.value, str) for v in tbl.values):
+                    names = [v.value for v in tbl.values]
+        if names is None:
+            raise AnalysisError(f"{f.module.rel}:{c.lineno}: `{ast.unparse(c)[:60]}` calls a method chosen by name at run time; which methods it can be is not readable here")
+        out = []
+        for n_ in names:
+            g_ = P.lookup_method(f.cls, n_) if hasattr(P, "lookup_method") else None
+            if g_ is None:
+                raise AnalysisError(f"{f.module.rel}:{c.lineno}: `{ast.unparse(c)[:60]}` may call `{n_}`, which is not a method of {f.cls.name}")
+            out.append(g_)
+        return out
 
     return pred
 
